@@ -988,6 +988,26 @@ fn schema_model<S: ShortGroupSignatureScheme>(schema: &PresentationSchema<S>) ->
 }
 
 /// every single change of a verifier-side parameter
+/// other spellings of a textual identifier: letter case swapped, the hex spelling of its bytes, the bytes its hex
+/// spelling denotes, surrounding white space
+fn id_twins(id: &str) -> Vec<(&'static str, String)> {
+    let mut v = vec![];
+    let swapped: String = id.chars().map(|c| if c.is_ascii_lowercase() { c.to_ascii_uppercase() } else if c.is_ascii_uppercase() { c.to_ascii_lowercase() } else { c }).collect();
+    if swapped != id {
+        v.push(("case-swapped", swapped));
+    }
+    v.push(("hex-spelling", hex::encode(id.as_bytes())));
+    if let Ok(b) = hex::decode(id) {
+        if let Ok(t) = String::from_utf8(b) {
+            if t != id {
+                v.push(("hex-decoded", t));
+            }
+        }
+    }
+    v.push(("trailing-space", format!("{id} ")));
+    v
+}
+
 fn context_mutations<S: ShortGroupSignatureScheme>(w: &World<S>, rng: &mut ChaCha20Rng) -> Vec<(String, PresentationSchema<S>, Vec<u8>)> {
     let mut out: Vec<(String, PresentationSchema<S>, Vec<u8>)> = vec![];
     let sid = w.schema.id.clone();
@@ -1004,6 +1024,10 @@ fn context_mutations<S: ShortGroupSignatureScheme>(w: &World<S>, rng: &mut ChaCh
     n.push(0);
     out.push(("nonce-extend".into(), same(&w.statements), n));
     out.push(("schema-id".into(), PresentationSchema::new_with_id(&w.statements, &format!("{sid}x")), w.nonce.clone()));
+    // identifiers are byte strings: another spelling that some decoding would identify with the original is another id
+    for (nm, alt) in id_twins(&sid) {
+        out.push((format!("schema-id:{nm}"), PresentationSchema::new_with_id(&w.statements, &alt), w.nonce.clone()));
+    }
     // statement order and count
     if w.statements.len() >= 2 {
         let mut st = w.statements.clone();
@@ -1028,6 +1052,16 @@ fn context_mutations<S: ShortGroupSignatureScheme>(w: &World<S>, rng: &mut ChaCh
                 let mut t = (**s).clone();
                 t.issuer.id = format!("{}x", t.issuer.id);
                 push("issuer.id", t.into());
+                for (nm, alt) in id_twins(&s.issuer.id) {
+                    let mut t = (**s).clone();
+                    t.issuer.id = alt;
+                    push(&format!("issuer.id:{nm}"), t.into());
+                }
+                for (nm, alt) in id_twins(&s.issuer.schema.id) {
+                    let mut t = (**s).clone();
+                    t.issuer.schema.id = alt;
+                    push(&format!("issuer.schema.id:{nm}"), t.into());
+                }
                 let mut t = (**s).clone();
                 t.issuer.verifying_key = other_ipub.verifying_key.clone();
                 push("issuer.verifying_key", t.into());
